@@ -102,6 +102,12 @@ class IterTr:
         if kd == "if":
             if e[3] is None:
                 raise TranslationError("%s: if without else" % self.name)
+            c0 = e[1]
+            while c0[0] == "paren":
+                c0 = c0[1]
+            if c0[0] == "unop" and c0[1] == "!":
+                # `if !c { A } else { B }` is `if c { B } else { A }`
+                return self.ev(("if", c0[2], e[3], e[2]), k)
             a = self.ev(e[2], lambda t: "qret %s" % t)
             b = self.ev(e[3], lambda t: "qret %s" % t)
             x = self.sym()
@@ -148,6 +154,10 @@ class IterTr:
             e = s[1]
             if e[0] == "macro" and e[1] == "debug_assert":
                 return nxt()
+            if e[0] == "if" and e[3] is None and e[2][0] == "block" and e[2][2] is None and len(e[2][1]) == 1 \
+                    and e[2][1][0][0] == "expr" and e[2][1][0][1][0] == "return" and e[2][1][0][1][1] is not None:
+                # `if c { return X; } rest`  is  `if c { X } else { rest }`
+                return self.ev(("if", e[1], ("block", [], e[2][1][0][1][1]), ("block", list(rest), tail)), k)
             return self.ev(e, lambda t: nxt())
         raise TranslationError("%s: statement %s" % (self.name, s[0]))
 
